@@ -442,7 +442,7 @@ def meta_state_scenario(r, k):
     nd = r.choice([1, 1, 2])
     vs = []
     for d in range(nd):
-        lo = r.choice(gridio.NONDYADIC) * r.choice([1, 1, -1])
+        lo = r.choice(gridio.NONDYADIC[:7]) * r.choice([1, 1, -1])
         w = r.choice([0.5, 0.3, 0.25, 0.7])
         n = r.randint(4, 8)
         vs.append({"lower": lo, "w": w, "nx": n, "upper": lo + n * w})
